@@ -124,6 +124,9 @@ func c19Extras(cc *CheckCtx) {
 		if funcKey(s.in) == "grol.io/grol/object.(*Environment).Set" {
 			continue
 		}
+		if s.in.Name() == "addMacro" || s.in.Name() == "extendMacroEnv" {
+			continue // macro stores (macro definitions / quoted macro parameters), not program bindings
+		}
 		ord := 0
 		for _, n := range names {
 			if n == s.in.Name() {
@@ -138,6 +141,7 @@ func c19Extras(cc *CheckCtx) {
 	cc.runBounded(BoundedSpec{Name: "constant-mutation", PkgDir: "repl", File: "c19_const_test.go", Test: "TestVerifBoundedConstants", TimeoutS: 120,
 		Contract: "after binding an upper-case name, every kind of mutation attempt errors or leaves it unchanged (registers on and off)"})
 	cc.Assume = append(cc.Assume,
+		"C19: the macro environments written by eval.addMacro / eval.extendMacroEnv hold macro definitions and quoted parameters, not program bindings: outside the write audit",
 		"C19: 'evaluate to a different value' for arbitrary programs beyond the write audit relies on the scoping contracts (C01 residual)")
 }
 
